@@ -1,5 +1,6 @@
 mod alloc;
 mod out;
+mod pure;
 mod rng;
 
 pub struct Args {
@@ -36,6 +37,7 @@ fn main() {
     let args = parse_args();
     match args.cmd.as_str() {
         "alloc" => alloc::run(&args),
+        "pure" => pure::run(&args),
         other => {
             eprintln!("unknown command {other}");
             std::process::exit(2);
